@@ -2,7 +2,10 @@
 """Regenerates MANIFEST.json from checks.json (claimed checks) and not_applicable.json."""
 import json, os, subprocess
 R = os.path.dirname(os.path.abspath(__file__))
-checks = json.load(open(os.path.join(R, "checks.json")))
+import glob
+checks = {}
+for p in sorted(glob.glob(os.path.join(R, "harness", "p*", "check.json"))):
+    checks.update(json.load(open(p)))
 props = [json.loads(l)["id"] for l in open(os.path.join(R, "properties.jsonl")) if l.strip()]
 na_path = os.path.join(R, "not_applicable.json")
 na_reasons = json.load(open(na_path)) if os.path.exists(na_path) else {}
